@@ -1,17 +1,20 @@
 #!/usr/bin/env python3-vt
 """Symbolic identity service for rules_c01/c02/c12/c13 (runs under the tooling interpreter, which has sympy).
 
-stdin : JSON list of jobs {id, symbols: {name: "positive"|"real"}, subs: {name: expr}, assume: [[lhs, rhs], ..], guarded: bool,
+stdin : JSON list of jobs {id, symbols: {name: "positive"|"real"}, subs: {name: expr}, points: [{name: "p/q"}], assume: [[lhs, rhs], ..], guarded: bool,
                           term: expr, accepted: [expr, ...], relative: bool, variant_of: any}
 stdout: JSON {id: {"verdict": "equal"|"different"|"undecided", "form": index, "forms": [indices], "detail": str, "term": str}}
 
 `term` and the accepted forms are expressions over the symbols and `u` (0 < u < 1, made explicit by u = v/(1+v), v > 0).
-equal     = the difference to an accepted form simplifies to 0 (uninterpreted constructor heads are compared argument-wise);
-different = for every accepted form the difference is numerically non-zero (40 digits) at an exact rational point — opaque function
-            applications count as arbitrary positive numbers — so the two real functions are not the same function;
-undecided = neither could be established.  A numeric pre-filter skips the algebra for forms that are different at the first point.
+equal     = the difference to an accepted form simplifies to 0 (uninterpreted constructor heads are compared argument-wise; pairs shown
+            equal are abstracted by a shared symbol in the remaining pairs);
+different = for every accepted form there is a point of the grid (exact rationals, 40-digit evaluation; opaque function applications count as
+            arbitrary positive numbers) at which both sides are real numbers and differ — or, for a form that is nowhere real together with
+            the term on the grid, at which they differ on the principal complex branch; plus points next to the jumps of floor terms;
+undecided = neither could be established.  The algebra is tried only for forms that agree with the term at every both-real grid point.
 """
 import json
+import os
 import sys
 
 import sympy as sp
@@ -25,6 +28,9 @@ TEST_POINTS = [
     # every symbol inside (0, 1): probabilities, unit draws (keeps sqrt(p (1 - p)), ln(1 - u), ... real)
     {"u": sp.Rational(2, 5), "pool": [sp.Rational(3, 10), sp.Rational(7, 10), sp.Rational(2, 5), sp.Rational(1, 7), sp.Rational(5, 8), sp.Rational(9, 11), sp.Rational(4, 9)]},
     {"u": sp.Rational(5, 7), "pool": [sp.Rational(4, 5), sp.Rational(1, 6), sp.Rational(5, 9), sp.Rational(3, 8), sp.Rational(2, 11), sp.Rational(6, 7), sp.Rational(1, 3)]},
+    # large values: counts and population sizes (keeps mode - 1.5 sigma, the arguments of the tail logarithms, ... positive)
+    {"u": sp.Rational(1, 3), "pool": [sp.Integer(40), sp.Integer(30), sp.Integer(50), sp.Integer(61), sp.Integer(47), sp.Integer(35), sp.Integer(52)]},
+    {"u": sp.Rational(4, 7), "pool": [sp.Integer(135), sp.Integer(260), sp.Integer(145), sp.Integer(97), sp.Integer(171), sp.Integer(88), sp.Integer(203)]},
 ]
 
 
@@ -147,31 +153,147 @@ def solve_one(job):
                 j += 1
         return vals
 
-    def nval(expr, vals):
+    _vc = {}
+
+    def cval(expr, vals, key=None):
+        """Value at a point (40 digits), possibly on a complex branch; None if it is not a finite number."""
+        k_ = (expr, key) if key is not None else None
+        if k_ is not None and k_ in _vc:
+            return _vc[k_]
         try:
             v = sp.N(expr.xreplace(repl).subs(u, vpos / (1 + vpos)).subs(vals), 40)
-            return v if v.is_number and v.is_finite else None
+            if not (v.is_number and v.is_finite):
+                v = None
         except Exception:      # noqa: BLE001
-            return None
+            v = None
+        if k_ is not None:
+            _vc[k_] = v
+        return v
 
     relative = bool(job.get("relative"))
 
-    def differs_at(pairs, vals):
+    def cmp_at(pairs, vals, key=None):
+        """('real' | 'complex', differs) at this point, or None if a side has no value.  'real': every compared value is a real number."""
+        allreal, diff = True, False
         for (x_, y_) in pairs:
-            dv = nval(x_ - y_, vals)
-            if dv is None:
+            xv, yv = cval(x_, vals, key), cval(y_, vals, key)
+            if xv is None or yv is None:
                 return None
+            if not (xv.is_real and yv.is_real):
+                allreal = False
             tol = sp.Float("1e-25")
             if relative:
-                sc = nval(x_, vals)
-                tol = sp.Float("1e-9") * (1 + (abs(sc) if sc is not None else 0))
-            if abs(dv) > tol:
-                return True
-        return False
+                tol = sp.Float("1e-9") * (1 + abs(xv))
+            if abs(xv - yv) > tol:
+                diff = True
+        return ("real" if allreal else "complex", diff)
+
+    def differs_at(pairs, vals):
+        r_ = cmp_at(pairs, vals)
+        return None if (r_ is None or r_[0] != "real") else r_[1]
+
+    def numeric(pl):
+        """Witness text if the pairs are different functions, else None; second result: whether a both-real point was seen.
+        A real-valued disagreement at a point refutes.  A disagreement on a complex branch (logarithm or root of a negative number) refutes
+        only when the two sides are nowhere both real on the grid (their natural domains do not meet there, e.g. tests of different regions
+        of one algorithm): identities such as ln(ab) = ln a + ln b hold where both sides are real and fail on the principal branch."""
+        real_seen, cdiff = False, None
+        for k_, vals in enumerate(points):
+            r_ = cmp_at(pl, vals, k_)
+            if r_ is None:
+                continue
+            if r_[0] == "real":
+                real_seen = True
+                if r_[1]:
+                    return "at %s the two sides differ" % {str(a_): str(v_) for a_, v_ in vals.items()}, True
+            elif r_[1] and cdiff is None:
+                cdiff = vals
+        if not real_seen and cdiff is not None:
+            return "at %s the two sides differ (on a complex branch; they are nowhere both real on the grid)" % {str(a_): str(v_) for a_, v_ in cdiff.items()}, False
+        return None, real_seen
+
+    def floor_points(pl, base_vals, limit=12):
+        """Extra test points next to the jumps of floor / ceiling sub-terms: two step functions whose arguments differ by a small constant
+        agree at almost every rational grid point, so the grid alone never separates floor(x - 1.1484) from floor(x - 1.1448)."""
+        out = []
+        seen = set()
+        for (x_, y_) in pl:
+            for ex in (x_, y_):
+                try:
+                    ex2 = ex.xreplace(repl).subs(u, vpos / (1 + vpos))
+                except Exception:      # noqa: BLE001
+                    continue
+                for fl in sorted(ex2.atoms(sp.floor, sp.ceiling), key=str):
+                    a_ = fl.args[0]
+                    if a_ in seen or a_.atoms(sp.floor, sp.ceiling):
+                        continue
+                    seen.add(a_)
+                    for s_ in sorted(a_.free_symbols, key=lambda q: q.name):
+                        if s_ not in base_vals or len(out) >= limit:
+                            continue
+                        others = {k: v_ for k, v_ in base_vals.items() if k != s_}
+                        try:
+                            a1 = a_.subs(others)
+                            d1 = sp.diff(a1, s_)
+                            x0 = sp.N(base_vals[s_], 40)
+                            a0 = sp.N(a1.subs(s_, x0), 40)
+                            if not (a0.is_real and a0.is_finite):
+                                continue
+                            m_ = sp.floor(a0) + 1
+                            for _ in range(12):
+                                dv = sp.N(d1.subs(s_, x0), 40)
+                                av = sp.N(a1.subs(s_, x0), 40)
+                                if not (dv.is_real and av.is_real) or dv == 0:
+                                    break
+                                x0 = x0 - (av - m_) / dv
+                            av = sp.N(a1.subs(s_, x0), 40)
+                            if not (av.is_real and abs(av - m_) < sp.Float("1e-20")) or (s_.is_positive and x0 <= 0):
+                                continue
+                            dv = abs(sp.N(d1.subs(s_, x0), 40))
+                            step = sp.Float("1e-12") * (1 + abs(x0)) / (dv if dv > 0 else 1)
+                            for sg in (1, -1):
+                                v2 = dict(others)
+                                v2[s_] = x0 + sg * step
+                                out.append(v2)
+                        except Exception:      # noqa: BLE001
+                            continue
+        return out
+
+    def all_equal(pl):
+        """Every pair is the same function.  Pairs are taken smallest first; a pair shown equal is then abstracted: its left side is replaced by a
+        fresh symbol in the remaining left sides, its right side by the same symbol in the remaining right sides (sound: the two are equal), so
+        that set-up constants defined in terms of one another (m, then x_l = m - d + 1/2, then lambda_l(x_l), then p2 ...) stay small."""
+        if len(pl) == 1:
+            d = (pl[0][0] - pl[0][1]).subs(u, vpos / (1 + vpos))
+            return d == 0 or (sp.count_ops(d) <= 3000 and is_zero(d))
+        order = sorted(range(len(pl)), key=lambda k_: sp.count_ops(pl[k_][0]) + sp.count_ops(pl[k_][1]))
+        sub_x, sub_y = [], []
+        for k_ in order:
+            x_, y_ = pl[k_]
+            for ex, sy in sub_x:
+                x_ = x_.subs(ex, sy)
+            for ey, sy in sub_y:
+                y_ = y_.subs(ey, sy)
+            d = (x_ - y_).subs(u, vpos / (1 + vpos))
+            if d != 0:
+                if sp.count_ops(d) > 3000 or not is_zero(d):
+                    return False
+            if sp.count_ops(x_) > 8 and sp.count_ops(y_) > 8:
+                sy = sp.Symbol("cse%d_" % k_, real=True)
+                sub_x.append((x_, sy))
+                sub_y.append((y_, sy))
+        return True
 
     verdict, form, detail = "undecided", None, ""
     eq_forms = []
     points = [point(tp) for tp in TEST_POINTS]
+    # points named by the reference (inside the algorithm's domain): the named symbols take the given values, the others come from the grid
+    for k_, pt in enumerate(job.get("points", [])):
+        vals = dict(points[k_ % len(points)])
+        for s_ in allsyms:
+            if s_.name in pt:
+                vals[s_] = sp.Rational(pt[s_.name])
+        points.insert(k_, vals)
     refuted = []
     for i, pl in enumerate(pair_lists):
         if pl == "unparsed":
@@ -180,19 +302,12 @@ def solve_one(job):
         if pl is None:
             refuted.append("different constructor / function heads")
             continue
-        # numeric pre-filter: the first test point at which both sides are real numbers decides whether the algebra is tried at all
-        w = None
-        for vals in points:
-            d_ = differs_at(pl, vals)
-            if d_ is True:
-                w = "at %s the two sides differ" % {str(k): str(v_) for k, v_ in vals.items()}
-                break
-            if d_ is False:
-                break
+        # numeric pre-filter: the algebra is tried only for forms that agree with the term wherever both are real on the grid
+        w, real_seen = numeric(pl)
         if w is not None:
             refuted.append(w)
             continue
-        if all(is_zero((x_ - y_).subs(u, vpos / (1 + vpos))) for x_, y_ in pl):
+        if all_equal(pl):
             if verdict != "equal":
                 verdict, form, detail = "equal", i, "term - accepted[%d] simplifies to 0" % i
             eq_forms.append(i)
@@ -200,11 +315,10 @@ def solve_one(job):
             if job.get("variant_of") is None:
                 break
             continue
-        # numerically equal at one point but not shown equal: different at another point?
-        w = None
-        for vals in points:
+        # numerically equal on the grid but not shown equal: different next to a jump of a floor term?
+        for vals in floor_points(pl, points[0]):
             if differs_at(pl, vals) is True:
-                w = "at %s the two sides differ" % {str(k): str(v_) for k, v_ in vals.items()}
+                w = "at %s (next to a jump of a floor term) the two sides differ" % {str(k): str(v_)[:24] for k, v_ in vals.items()}
                 break
         refuted.append(w)
     if verdict != "equal":
@@ -213,7 +327,10 @@ def solve_one(job):
             detail = refuted[0][:300] + (" (with %s)" % {str(k): str(v_) for k, v_ in eqsub.items()} if eqsub else "")
         else:
             detail = "no accepted form shown equal, and not refuted"
-    return {"verdict": verdict, "form": form, "forms": eq_forms, "detail": detail, "term": str(term)[:600]}
+    out = {"verdict": verdict, "form": form, "forms": eq_forms, "detail": detail, "term": str(term)[:600]}
+    if os.environ.get("VERIF_SYM_DEBUG"):
+        out["refuted"] = [None if r_ is None else r_[:60] for r_ in refuted]
+    return out
 
 
 main()
